@@ -275,7 +275,7 @@ std::vector<Sub> vh_subs() {
       uint64_t rsl = big ? nn : nn + v[11], asl = big ? nn : nn + v[12];
       if (inplace) asl = rsl;
       unsigned mask = v[13] ? spq::GENERIC : spq::FULL;
-      if (k > 12 && (rs + as) > 4) { rs = rs % 3; as = as % 3; }
+      if (k > 12) { rs = std::min<uint64_t>(rs, 3); as = std::min<uint64_t>(as, 3); }  // large rings: at most 3 limbs, multi-limb calls stay frequent
       classify(c, k, p, op);
       c.cls(mt == FFT64 ? "module:FFT64" : "module:NTT120");
       c.cls(big ? "wrapper:big" : "wrapper:vec");
